@@ -125,6 +125,10 @@ func Start(name gen.Atom, options gen.NodeOptions, frameworkVersion gen.Version)
 		wait: make(chan struct{}),
 	}
 
+	if vu := lib.VerifUniqID(); vu != 0 {
+		node.uniqID = vu
+	}
+
 	node.log = createLog(options.Log.Level, node.dolog)
 	node.log.setSource(gen.MessageLogNode{Node: name, Creation: creation})
 
